@@ -210,7 +210,7 @@ def run(spec, ctx):
                 ex_b = {"k": r.choice([3, "b", 10]), "list": [r.choice(gen.MEM_LEAVES) for _ in range(3)], "o": {n: 1 for n in names[:1]}, "s": r.choice(fg.witnesses or ["ab"]), "names": names[:1]}
                 check_interleaved(ctx, ast, Renderer(r, blanks=0.1, alias=True).top(ast), [(doc, ex), (doc_b, ex_b), (doc, ex_b)], "interleaved")
             if i % 5 == 2:
-                check_after_incomplete_passes(ctx, ast, Renderer(r, blanks=0.1, alias=True).top(ast), doc, ex, "in-place")
+                check_after_incomplete_passes(ctx, ast, Renderer(r, blanks=0.1, alias=True).top(ast), doc, ex, "in-place", pool=list(gen.MEM_LEAVES) + [[], {}, ["a"], {"a": 2}])  # (no boolean/number look-alikes: membership between them is unspecified)
             if r.random() < 0.25:
                 other = ["q", r.choice(["^", "$"]), [["child", [["wild"]]]] if r.random() < 0.5 else gen.gen_segments(r, names, max_segs=2, keys=True) or [["child", [["wild"]]]]]
                 comp = [ast, [r.choice("|&"), other]] if r.random() < 0.5 else [other, [r.choice("|&"), ast]]
@@ -243,7 +243,7 @@ def replay(case, ctx):
     install()
     if case.get("in_place"):
         for _ in range(10):
-            check_after_incomplete_passes(ctx, case["ast"], case["text"], case["doc"], case.get("extra"), case.get("class", "replay"))
+            check_after_incomplete_passes(ctx, case["ast"], case["text"], case["doc"], case.get("extra"), case.get("class", "replay"), pool=list(gen.MEM_LEAVES) + [[], {}, ["a"], {"a": 2}])
         return
     if case.get("interleaved"):
         check_interleaved(ctx, case["ast"], case["text"], [tuple(x) for x in case["runs"]], case.get("class", "replay"))
